@@ -192,6 +192,65 @@ pub fn largest_fitting(mk: &dyn Fn(usize) -> Machine, hi: usize) -> usize {
     lo
 }
 
+/// n states stuffed with entropy: every distribution's parameters, start and max are random bit patterns
+/// (start / max are not constrained by validation), so the encoding hardly compresses and the *string* of a
+/// machine that fits 1 MiB decoded is longer than 1 MiB.
+pub fn entropy_machine(n: usize, seed: u64) -> Machine {
+    use rand_core::RngCore;
+    let mut r = WordRng::new(&[], seed ^ 0xE17);
+    let mut rnd = move || -> f64 {
+        loop {
+            let x = f64::from_bits(r.next_u64());
+            if x.is_finite() {
+                return x;
+            }
+        }
+    };
+    let mut states = Vec::with_capacity(n);
+    for i in 0..n {
+        let mut d = || Dist { dist: DistType::Normal { mean: rnd(), stdev: rnd() }, start: rnd(), max: rnd() };
+        let mut t: EnumMap<Event, Vec<Trans>> = enum_map! { _ => vec![] };
+        t[Event::NormalSent] = vec![Trans((i + 1) % n, 1.0)];
+        let a = Action::BlockOutgoing { bypass: i % 2 == 0, replace: i % 3 == 0, timeout: d(), duration: d(), limit: Some(d()) };
+        states.push(st_map(t, Some(a), (Some(Counter::new_dist(Operation::Increment, d())), Some(Counter::new_dist(Operation::Set, d())))));
+    }
+    Machine::new(10, 0.5, 10, 0.5, states).expect("entropy machine validates")
+}
+/// A compressible machine whose bincode encoding has exactly `target` bytes (header varints and extra
+/// transitions are tuned to fill the gap); None if the small search does not hit it.
+pub fn exact_size_machine(target: u64) -> Option<Machine> {
+    let base_n = largest_fitting(&|n| sized_machine(n, false, 1), 200_000);
+    for d in 0..6usize {
+        let n = base_n.saturating_sub(d).max(2);
+        for hdr in [0u64, 1 << 8, 1 << 16, 1 << 32] {
+            for hdr2 in [0u64, 1 << 8, 1 << 16, 1 << 32] {
+                for extra in 0..40usize {
+                    let mut m = sized_machine(n, false, 1);
+                    m.allowed_padding_packets = 10 + hdr;
+                    m.allowed_blocked_microsec = 10 + hdr2;
+                    // extra transitions: one more (target, probability) pair per step on successive states
+                    for k in 0..extra {
+                        let mut t = m.states[k].get_transitions();
+                        t[Event::TunnelRecv] = vec![Trans((k + 2) % n.min(200), 0.5)];
+                        let mut s2 = maybenot::state::State::new(t);
+                        s2.action = m.states[k].action;
+                        s2.counter = m.states[k].counter;
+                        m.states[k] = s2;
+                    }
+                    let sz = bincode_size(&m);
+                    if sz == target && m.validate().is_ok() {
+                        return Some(m);
+                    }
+                    if sz > target {
+                        break;
+                    }
+                }
+            }
+        }
+    }
+    None
+}
+
 pub fn sized_machine(n: usize, rich: bool, seed: u64) -> Machine {
     use rand_core::RngCore;
     let mut r = WordRng::new(&[], seed);
@@ -569,7 +628,8 @@ pub fn worker(ctx: &WorkerCtx) -> WorkerOut {
     let nmax_plain = largest_fitting(&|n| sized_machine(n, false, seed.wrapping_add(n as u64)), 200_000);
     let nmax_rich = largest_fitting(&|n| sized_machine(n, true, seed.wrapping_add(n as u64)), 20_000);
     let nmax_bare = largest_fitting(&|n| bare_machine(n), 200_000);
-    for (n, k) in [(nmax_plain, 0u8), (nmax_plain - 1, 0), (nmax_rich, 1), (nmax_rich - 1, 1), (nmax_bare, 2), (nmax_bare / 2, 2), (1000, 2)] {
+    let nmax_entropy = largest_fitting(&|n| entropy_machine(n, seed), 20_000);
+    for (n, k) in [(nmax_plain, 0u8), (nmax_plain - 1, 0), (nmax_rich, 1), (nmax_rich - 1, 1), (nmax_bare, 2), (nmax_bare / 2, 2), (1000, 2), (nmax_entropy, 3), (nmax_entropy / 2, 3), (100, 3), (0, 4), (1, 4)] {
         jobs.push((n, k));
     }
     let next = AtomicUsize::new(0);
@@ -585,7 +645,19 @@ pub fn worker(ctx: &WorkerCtx) -> WorkerOut {
                             break;
                         }
                         let (n, rich) = jobs[i];
-                        let m = if rich == 2 { bare_machine(n) } else { sized_machine(n, rich == 1, ctx.seed.wrapping_add(n as u64)) };
+                        let m = match rich {
+                            2 => bare_machine(n),
+                            3 => entropy_machine(n, ctx.seed),
+                            // kind 4: encoding of exactly 1 MiB (n = 0) and exactly 1 MiB - 1 (n = 1)
+                            4 => match exact_size_machine((1 << 20) - n as u64) {
+                                Some(m) => m,
+                                None => {
+                                    out.push((n, rich, 0, 0, Some("could not construct a machine of the exact size (machinery)".into())));
+                                    continue;
+                                }
+                            },
+                            _ => sized_machine(n, rich == 1, ctx.seed.wrapping_add(n as u64)),
+                        };
                         let sz = bincode_size(&m);
                         crate::supervise::beat();
                         if sz > (1 << 20) {
@@ -593,7 +665,7 @@ pub fn worker(ctx: &WorkerCtx) -> WorkerOut {
                             continue;
                         }
                         let slen = m.serialize().len();
-                        let r = judge_roundtrip(&m, &format!("size class {n} states, {}", ["compressible", "incompressible", "bare"][rich as usize]), n <= 2000);
+                        let r = judge_roundtrip(&m, &format!("size class {n} states, {}", ["compressible", "incompressible", "bare", "entropy-filled", "exact-size (n = bytes below 1 MiB)"][rich as usize]), n <= 2000 && rich != 4);
                         out.push((n, rich, sz, slen, r.err()));
                     }
                     out
@@ -605,7 +677,7 @@ pub fn worker(ctx: &WorkerCtx) -> WorkerOut {
     let mut rows: Vec<_> = rows.into_iter().flatten().collect();
     rows.sort();
     for (n, rich, sz, slen, err) in rows {
-        let kind_name = ["compressible", "incompressible", "bare"][rich as usize];
+        let kind_name = ["compressible", "incompressible", "bare", "entropy-filled", "exact-size (states field = bytes below 1 MiB)"][rich as usize];
         size_rows.push(json!({"states": n, "kind": kind_name, "bincode_bytes": sz, "string_chars": slen, "fits_1MiB": sz <= (1 << 20)}));
         if sz <= (1 << 20) {
             valid += 1;
